@@ -155,7 +155,10 @@ def imread_from_npz(path: Union[Path, list[Path]]) -> darsia.Image:
     npzdata = np.load(path, allow_pickle=True)
     array = npzdata["array"]
     metadata = npzdata["metadata"].item()
-    if "color_space" in metadata:
+    kind = str(npzdata["kind"]) if "kind" in npzdata else None
+    if kind == "ScalarImage":
+        image = darsia.ScalarImage(array, **metadata)
+    elif kind == "OpticalImage" or "color_space" in metadata:
         # Optical images carry their color space as additional metadata
         image = darsia.OpticalImage(array, **metadata)
     else:
